@@ -431,6 +431,136 @@ impl Reader<Vec<u8>> for SimSeg {
     }
 }
 
+// ---------------------------------------------------------------------------
+// Sparse back-end: an honest reader over an astronomically long input
+// ---------------------------------------------------------------------------
+
+/// `head` followed by zero octets up to `end` (a sparse file, a generated
+/// source): `len()` is honest and huge, every request that can be
+/// materialised is served exactly. `T = Vec<u8>`.
+pub struct SimSparse {
+    head: Rc<Vec<u8>>,
+    pos: usize,
+    end: usize,
+    mon: Rc<RefCell<Monitor>>,
+}
+
+/// Largest span a sparse reader materialises; a longer `bytes()` request is
+/// declined (no decoder has a use for one: every wire length is 16 bits).
+pub const SPARSE_SPAN_MAX: usize = 1 << 20;
+
+impl SimSparse {
+    pub fn new(head: &[u8], total: usize, mon: Rc<RefCell<Monitor>>) -> Self {
+        SimSparse {
+            head: Rc::new(head.to_vec()),
+            pos: 0,
+            end: total.max(head.len()),
+            mon,
+        }
+    }
+    fn remaining(&self) -> usize {
+        self.end - self.pos
+    }
+    fn gather(&self, from: usize, n: usize) -> Vec<u8> {
+        let mut out = vec![0u8; n];
+        if from < self.head.len() {
+            let k = (self.head.len() - from).min(n);
+            out[..k].copy_from_slice(&self.head[from..from + k]);
+        }
+        out
+    }
+    fn fixed(&mut self, m: Method, n: usize) -> u64 {
+        note(&self.mon, m, n, self.remaining(), self.pos);
+        if self.remaining() < n {
+            violate(
+                &self.mon,
+                format!("{:?} needs {} octets, {} remain (absolute offset {})", m, n, self.remaining(), self.pos),
+            );
+            self.pos = self.end;
+            return 0;
+        }
+        let mut v = 0u64;
+        for b in self.gather(self.pos, n) {
+            v = (v << 8) | b as u64;
+        }
+        touch(&self.mon, self.pos + n);
+        self.pos += n;
+        v
+    }
+}
+
+impl Reader<Vec<u8>> for SimSparse {
+    fn is_empty(&self) -> bool {
+        note(&self.mon, Method::IsEmpty, 0, self.remaining(), self.pos);
+        self.remaining() == 0
+    }
+    fn len(&self) -> usize {
+        note(&self.mon, Method::Len, 0, self.remaining(), self.pos);
+        self.remaining()
+    }
+    fn subreader(&mut self, length: usize) -> Self {
+        note(&self.mon, Method::Subreader, length, self.remaining(), self.pos);
+        let mut n = length;
+        if n > self.remaining() {
+            violate(
+                &self.mon,
+                format!("subreader({}) with {} remaining (absolute offset {})", length, self.remaining(), self.pos),
+            );
+            n = self.remaining();
+        }
+        let sub = SimSparse {
+            head: self.head.clone(),
+            pos: self.pos,
+            end: self.pos + n,
+            mon: self.mon.clone(),
+        };
+        self.pos += n;
+        sub
+    }
+    fn bytes(&mut self, length: usize) -> Option<Vec<u8>> {
+        note(&self.mon, Method::Bytes, length, self.remaining(), self.pos);
+        if length > self.remaining() {
+            self.mon.borrow_mut().bytes_none += 1;
+            return None;
+        }
+        if length > SPARSE_SPAN_MAX {
+            let mut m = self.mon.borrow_mut();
+            if m.refusals.len() < 64 {
+                m.refusals.push((self.pos, length));
+            }
+            return None;
+        }
+        let g = self.gather(self.pos, length);
+        touch(&self.mon, self.pos + length);
+        self.pos += length;
+        Some(g)
+    }
+    unsafe fn read_u8_unchecked(&mut self) -> u8 {
+        self.fixed(Method::U8, 1) as u8
+    }
+    unsafe fn read_u16_be_unchecked(&mut self) -> u16 {
+        self.fixed(Method::U16, 2) as u16
+    }
+    unsafe fn read_u32_be_unchecked(&mut self) -> u32 {
+        self.fixed(Method::U32, 4) as u32
+    }
+    unsafe fn read_u64_be_unchecked(&mut self) -> u64 {
+        self.fixed(Method::U64, 8)
+    }
+    fn skip_bytes(&mut self, length: usize) {
+        note(&self.mon, Method::Skip, length, self.remaining(), self.pos);
+        let mut n = length;
+        if n > self.remaining() {
+            violate(
+                &self.mon,
+                format!("skip_bytes({}) with {} remaining (absolute offset {})", length, self.remaining(), self.pos),
+            );
+            n = self.remaining();
+        }
+        self.pos += n;
+    }
+}
+
 /// Which reader sits behind the seam in a delivery (materialised in cases).
 #[derive(Clone, Debug, PartialEq, Eq, Serialize, Deserialize)]
 pub enum ReaderCfg {
@@ -450,6 +580,9 @@ pub enum ReaderCfg {
     /// consumes nothing) when the span would cross one of these offsets.
     /// Results are judged by the relaxed read-fault oracle only.
     Refusing(Vec<usize>),
+    /// the delivered octets followed by zero octets up to this total length
+    /// (an honest reader over a sparse source of astronomical size)
+    Sparse(u64),
 }
 
 /// What a re-entrant reader does in the middle of a request.
@@ -492,6 +625,7 @@ impl ReaderCfg {
             ReaderCfg::Segmented(_) => "segmented",
             ReaderCfg::Reentrant { .. } => "re-entrant",
             ReaderCfg::Refusing(_) => "refusing",
+            ReaderCfg::Sparse(_) => "sparse",
         }
     }
 }
